@@ -157,6 +157,11 @@ def run(cx: Cx):
                         f"the first strictly lower entry / append + stable descending sort / bisect.insort_right with key=-priority): "
                         f"{why}; first-strictly-lower placement can neither be proved nor refuted by the path rules", where=cx.where(add),
                         function=add.qualname)
+    elif shape == 'other-attribute':
+        cx.violation('R-GUARD', add.qualname, 'placement-reads-the-priority-attribute',
+                     f"add_system places the new system with {why}, not by its `priority` as it is when the system is registered: a copy "
+                     f"of the priority kept elsewhere is stale for a system whose priority was assigned after construction, which is then "
+                     f"queued out of priority order", where=cx.where(add))
     elif shape == 'bisect-left':
         cx.violation('R-GUARD', add.qualname, 'equal-priorities-keep-registration-order',
                      f"add_system uses {why}: a new system is placed BEFORE the systems of equal priority registered earlier (ties become "
@@ -399,7 +404,7 @@ def run(cx: Cx):
     from .common import include_premises
     include_premises(cx, ['C05'], 'the systems that run are the registered ones, in queue order, only if the scheduler walks an unmodified '
                      'same-order snapshot of the queue and skips entries that are no longer the registered object',
-                     only=lambda o: (o.rule == 'R-ITER' and 'snapshot' in o.key) or 'still-registered-test' in o.key)
+                     only=lambda o: (o.rule == 'R-ITER' and 'snapshot' in o.key) or 'still-registered-test' in o.key or 'clean_up' in o.key)
 
 
 def check_scheduler_keeps_system_set(cx: Cx):
@@ -529,6 +534,16 @@ def _insertion_shape(cx, add, ps):
                         v = key.args.args[0].arg
                         okkey = isinstance(b, ast.UnaryOp) and isinstance(b.op, ast.USub) and isinstance(b.operand, ast.Attribute) \
                             and b.operand.attr == 'priority' and isinstance(b.operand.value, ast.Name) and b.operand.value.id == v
+                    other = None
+                    if isinstance(key, ast.Call) and key.args and isinstance(key.args[0], ast.Constant) and isinstance(key.args[0].value, str) and \
+                            (key.func.attr if isinstance(key.func, ast.Attribute) else getattr(key.func, 'id', '')) == 'attrgetter':
+                        other = key.args[0].value
+                    elif isinstance(key, ast.Lambda) and len(key.args.args) == 1:
+                        b2 = key.body.operand if isinstance(key.body, ast.UnaryOp) else key.body
+                        if isinstance(b2, ast.Attribute) and isinstance(b2.value, ast.Name) and b2.value.id == key.args.args[0].arg:
+                            other = b2.attr
+                    if not okkey and other is not None and other != 'priority':
+                        return 'other-attribute', (f"bisect.{k} keyed by the attribute '{other}'" )
                     if not okkey:
                         return 'unknown', f"bisect.{k} without key=lambda x: -x.priority (placement depends on how System objects compare)"
                     kinds.add('bisect-left' if k == 'insort_left' else 'bisect')
